@@ -825,4 +825,75 @@ Section Out.
         * apply beqb_eq in Hb. subst x. rewrite rk_self. unfold blw. now rewrite beqb_refl.
         * apply under_spec in Hb as [s ->]. rewrite rk_under. unfold blw. now rewrite under_app, orb_true_r.
   Qed.
+
+  (* ---------------------------------------------------------------- small kernel facts *)
+  Lemma knotify_next_wd k ino bit isd c name : k_next_wd (knotify k ino bit isd c name) = k_next_wd k.
+  Proof. destruct (knotify_cases k ino bit isd c name) as [->|(kw & _ & _ & ->)]; reflexivity. Qed.
+
+  Lemma kgone_next_wd k ino af : k_next_wd (kgone k ino af) = k_next_wd k.
+  Proof.
+    unfold kgone. destruct (watch_of_ino k ino); [|reflexivity]. cbn. rewrite knotify_next_wd. destruct af; [apply knotify_next_wd | reflexivity].
+  Qed.
+
+  Lemma kernel_op_next_wd k t o : k_next_wd (kernel_op k t o) = k_next_wd k.
+  Proof.
+    destruct o as [p|p|p|p|p|p|p q]; cbn [kernel_op]; rewrite ?knotify_next_wd; try reflexivity.
+    - destruct (fisdir p t); now rewrite ?knotify_next_wd.
+    - apply kgone_next_wd.
+    - destruct (fisdir q t); rewrite ?kgone_next_wd, ?knotify_next_wd; reflexivity.
+  Qed.
+
+  Definition tocookie (c0 : N) (e : kraw) : Prop := is_moved_to (k_mask e) = true -> k_cookie e = c0.
+
+  Lemma kgone_inv_P (P : kraw -> Prop) k ino af : Forall P (k_queue k) ->
+    (forall kw bit isd, (bit = IN_ATTRIB /\ isd = true) \/ (bit = IN_DELETE_SELF /\ isd = false) -> P (kev kw bit isd 0 [])) ->
+    (forall kw, P (ign_ev kw)) -> Forall P (k_queue (kgone k ino af)).
+  Proof.
+    intros Hq H1 H2. unfold kgone. destruct (watch_of_ino k ino) as [w0|]; [|exact Hq]. cbn [k_queue].
+    set (a1 := if af then knotify k ino IN_ATTRIB true 0 [] else k).
+    assert (Q1 : Forall P (k_queue a1)).
+    { unfold a1. destruct af; [|exact Hq]. apply (knotify_inv P); [exact Hq|]. intros kw _. apply H1. now left. }
+    assert (Q2 : Forall P (k_queue (knotify a1 ino IN_DELETE_SELF false 0 []))).
+    { apply (knotify_inv P); [exact Q1|]. intros kw _. apply H1. now right. }
+    destruct (CoverProofs.kpush_cases (k_queue (knotify a1 ino IN_DELETE_SELF false 0 [])) (ign_ev w0)) as [E|E]; unfold ign_ev in E; rewrite E; [exact Q2|].
+    apply Forall_app. split; [exact Q2|]. constructor; [apply H2 | constructor].
+  Qed.
+
+  (* an IN_MOVED_TO record of the operation carries the cookie the kernel just handed out *)
+  Lemma kernel_op_tocookie k t o : k_queue k = [] -> Forall (tocookie (k_next_cookie k)) (k_queue (kernel_op k t o)).
+  Proof.
+    intros Hq. set (c0 := k_next_cookie k).
+    assert (H0 : Forall (tocookie c0) (k_queue k)) by (rewrite Hq; constructor).
+    assert (G : forall (k0 : kst) ino bit (isd : bool) c name, Forall (tocookie c0) (k_queue k0) ->
+              (is_moved_to (if isd then N.lor bit IN_ISDIR else bit) = false \/ c = c0) ->
+              Forall (tocookie c0) (k_queue (knotify k0 ino bit isd c name))).
+    { intros k0 ino bit isd c name Hk Hb. apply (knotify_inv (tocookie c0)); [exact Hk|]. intros kw _ Hm. cbn in *.
+      destruct Hb as [Hb|Hb]; [congruence | exact Hb]. }
+    assert (GG : forall (k0 : kst) ino af, Forall (tocookie c0) (k_queue k0) -> Forall (tocookie c0) (k_queue (kgone k0 ino af))).
+    { intros k0 ino af Hk. apply kgone_inv_P; [exact Hk| |].
+      - intros kw bit isd [[-> ->]|[-> ->]] Hm; cbn in Hm; discriminate.
+      - intros kw Hm. cbn in Hm. discriminate. }
+    destruct o as [p|p|p|p|p|p|p q]; cbn [kernel_op].
+    - repeat apply G; try assumption; left; reflexivity.
+    - repeat apply G; try assumption; left; reflexivity.
+    - destruct (fisdir p t); repeat apply G; try assumption; left; reflexivity.
+    - apply G; [assumption | left; reflexivity].
+    - apply G; [assumption | left; reflexivity].
+    - apply G; [now apply GG | left; reflexivity].
+    - assert (H2 : Forall (tocookie c0) (k_queue (knotify (knotify {| k_watches := k_watches k; k_next_wd := k_next_wd k; k_queue := k_queue k;
+                     k_next_cookie := k_next_cookie k + 1 |} (ino_of t (dirname p)) IN_MOVED_FROM (fisdir p t) (k_next_cookie k) (basename p))
+                   (ino_of t (dirname q)) IN_MOVED_TO (fisdir p t) (k_next_cookie k) (basename q)))).
+      { apply G; [apply G; [exact H0 | left; now destruct (fisdir p t)] | now right]. }
+      destruct (fisdir q t); [now apply GG | exact H2].
+  Qed.
+
+  Definition notified (o : op) : list bytes :=
+    match o with
+    | Touch p | Write p | Unlink p | Mkdir p => [dirname p]
+    | Chmod p | Rmdir p => [dirname p; p]
+    | Rename p q => [dirname p; dirname q; q]
+    end.
+
+  Lemma hits_notified t o : hits t o = map (ino_of t) (notified o).
+  Proof. destruct o; reflexivity. Qed.
 End Out.
